@@ -1312,6 +1312,24 @@ def triangle_float_check(ctx, rng, count):
             return
 
 
+def circle_float_check(ctx, rng, count):
+    """Model/DisplayCircle.v states x_k = cos(2 pi k/(base-1)) d/2, y_k = sin(..) d/2, z_k = 0 with base = 72:
+    compare with the figure (floats: validates the formula model, proves nothing)"""
+    for _ in range(count):
+        d = round(rng.uniform(0.01, 50), 4)
+        circ = magpy.current.Circle(current=1, diameter=d)
+        dr = do_show([circ], {"backend": "plotly", "return_fig": True, "units_length": "m", "style_arrow_show": False})
+        lines = [x for x in dr["traces"] if x["type"] == "scatter3d" and not is_path_trace(x)]
+        ctx.case(("circle-float", d), True)
+        ctx.bump("circle-float")
+        t = np.arange(72) * (2 * np.pi / 71)
+        want = np.array([np.cos(t) * d / 2, np.sin(t) * d / 2, 0 * t]).T
+        if len(lines) != 1 or lines[0]["xyz"].shape != want.shape or np.abs(lines[0]["xyz"] - want).max() > 1e-12 * d:
+            ctx.add_broken("broken-correspondence", "make_Circle line formula",
+                           f"the drawn circle is not cos/sin(2 pi k/71) d/2, k = 0..71, for diameter {d}")
+            return
+
+
 def cuboid_cases(ctx, rng, count):
     """make_Cuboid through show(Cuboid(dimension=ints)): doubled vertex coordinates and the facet index table"""
     out = []
@@ -1547,6 +1565,8 @@ def run(ctx):
         "integer dividing the cross product; float check of the offset formula elsewhere) and "
         "coq/Model/DisplayShapes.v (make_Cuboid vertex/facet table, Polyline line), tied by correspondence with "
         "plotly figures of show() on integer inputs",
+        "formula model coq/Model/DisplayCircle.v of the Circle line over R (not executable), compared with the "
+        "figure as floats only",
         "NOT modelled (PARTIAL): the other per-class local shape generators (traces_core.make_*, traces_base.py), "
         "group/merge of traces, the backends' conversion; these are covered only by the search oracle on figures",
         "SI prefix table in Model/DisplayUnits.v (si_prefix_spec) and in the harness (SI) are hand-written "
@@ -1578,6 +1598,7 @@ def run(ctx):
             ctx.case(c, True)
         triangle_model_check(ctx, tcs)
         triangle_float_check(ctx, rng, ctx.n(30, 300))
+        circle_float_check(ctx, rng, ctx.n(20, 200))
         ccs = cuboid_cases(ctx, rng, ctx.n(40, 300))
         for c, _ in ccs:
             ctx.case(c, True)
